@@ -93,12 +93,13 @@ type fnSig struct {
 type transErr struct{ msg string }
 
 type arithTranslator struct {
-	fset    *token.FileSet
-	fns     map[string]*fnSig
-	atoms   map[string]string // atomX -> text
-	vtypes  map[string]string // validTypeX -> atom text
-	excvals map[string]string // exceptionalValueX -> ExcVal constructor
-	notes   []string
+	fset         *token.FileSet
+	fns          map[string]*fnSig
+	atoms        map[string]string // atomX -> text
+	vtypes       map[string]string // validTypeX -> atom text
+	excvals      map[string]string // exceptionalValueX -> ExcVal constructor
+	notes        []string
+	droppedTexts map[string]bool
 }
 
 func (t *arithTranslator) fail(n ast.Node, format string, a ...interface{}) {
@@ -232,18 +233,18 @@ type dstmt struct {
 
 type loopCtx struct {
 	name string
-	vars []param    // loop-carried variables, in order
-	rest []dstmt    // statements after the loop (continuation of `break`)
+	vars []param // loop-carried variables, in order
+	rest []dstmt // statements after the loop (continuation of `break`)
 }
 
 type fctx struct {
-	t     *arithTranslator
-	fn    *fnSig
-	tmp   int
-	usesF bool
-	loop  *loopCtx
-	aux   []string // auxiliary definitions (loops), emitted before the function
-	depth int      // depth of the statement being translated (for the shadowing check)
+	t       *arithTranslator
+	fn      *fnSig
+	tmp     int
+	usesF   bool
+	loop    *loopCtx
+	aux     []string // auxiliary definitions (loops), emitted before the function
+	depth   int      // depth of the statement being translated (for the shadowing check)
 	visited map[ast.Stmt]bool
 }
 
@@ -711,6 +712,7 @@ func (c *fctx) noteDropped() {
 			txt = txt[:70] + "…"
 		}
 		c.t.notes = append(c.t.notes, fmt.Sprintf("%s line %d: unreachable unless a Number is neither Integer nor Float: %s", c.fn.name, p.Line, txt))
+		c.t.droppedTexts[txt] = true
 	}
 	walk = func(list []ast.Stmt) {
 		for _, st := range list {
@@ -1606,7 +1608,7 @@ func genArith(repo string) (string, error) {
 	if number == nil {
 		return "", fmt.Errorf("engine/number.go not found")
 	}
-	t := &arithTranslator{fset: fset, fns: map[string]*fnSig{}, atoms: map[string]string{}, vtypes: map[string]string{}, excvals: map[string]string{}}
+	t := &arithTranslator{fset: fset, fns: map[string]*fnSig{}, atoms: map[string]string{}, vtypes: map[string]string{}, excvals: map[string]string{}, droppedTexts: map[string]bool{}}
 	t.collectTables(files)
 
 	var order []string
@@ -1688,6 +1690,14 @@ func genArith(repo string) (string, error) {
 		sb.WriteString("  " + leanString(n))
 	}
 	sb.WriteString("]\n\n")
+	{
+		var ds []string
+		for d := range t.droppedTexts {
+			ds = append(ds, d)
+		}
+		sort.Strings(ds)
+		sb.WriteString("/-- the distinct statement texts among `dropped` -/\ndef droppedStatements : List String :=\n  " + strList(ds) + "\n\n")
+	}
 
 	for _, tbl := range []struct{ goName, lean, fnTy string }{
 		{"unaryFunctors", "Unary", "Num F → Except Err (Num F)"},
